@@ -30,10 +30,13 @@ func ConvertMetadataToProtoHeader(
 	headerInfo := make([]*conformancev1.Header, 0, len(src))
 	for key, value := range src {
 		if strings.HasSuffix(key, "-bin") {
-			// binary headers must be base64-encoded
+			// binary headers must be base64-encoded (into a copy, so
+			// that the caller's metadata is left untouched)
+			encoded := make([]string, len(value))
 			for i := range value {
-				value[i] = connect.EncodeBinaryHeader([]byte(value[i]))
+				encoded[i] = connect.EncodeBinaryHeader([]byte(value[i]))
 			}
+			value = encoded
 		}
 		hdr := &conformancev1.Header{
 			Name:  key,
